@@ -180,17 +180,17 @@ Proof.
 Qed.
 
 Lemma refuses_false g v e c :
-  refuses g v e c = false -> forall t, In t (check_targets g c) -> immb g v e t = false.
+  refuses g v e c = false -> forall t, In t (check_targets g v c) -> immb g v e t = false.
 Proof.
   unfold refuses. intros H t Hin.
   destruct (immb g v e t) eqn:E; [|reflexivity].
-  assert (existsb (immb g v e) (check_targets g c) = true) as X
+  assert (existsb (immb g v e) (check_targets g v c) = true) as X
       by (apply existsb_exists; eauto).
   congruence.
 Qed.
 
 Lemma refuses_true g v e c :
-  refuses g v e c = true -> exists t, In t (check_targets g c) /\ immb g v e t = true.
+  refuses g v e c = true -> exists t, In t (check_targets g v c) /\ immb g v e t = true.
 Proof. unfold refuses. now rewrite existsb_exists. Qed.
 
 (** * What acceptance of a step means *)
@@ -206,7 +206,7 @@ Definition Exempt (r : repo) (ev : event) (x : nat) : Prop :=
 
 (** [x] disappears or is recorded as rewritten by the step. *)
 Definition Touched (r : repo) (ev : event) (x : nat) : Prop :=
-  In x (e_rewritten ev)
+  In x (rew_eff ev)
   \/ visb (r_graph r ++ e_new ev) (e_view ev) x = false.
 
 Lemma accept_inv r ev r' : accept r ev = Some r' ->
@@ -234,12 +234,12 @@ Lemma accept_ok_parts r ev : accept_ok r ev = true ->
   let wc := wc_of v (e_ws ev) in
   let pre := vis_list g v in
   let hidden := filter (fun x => negb (visb g' v' x)) pre in
-  let roots := rewrite_roots g wc c in
+  let roots := rewrite_roots g v wc c in
   let snap_child := match c, wc with CSnapshot, Some w => immb g v e w | _, _ => false end in
   let allowed := fun x => visb g v x && descb g roots x && (memn x roots || negb (immb g v e x)) in
   refuses g v e c = false
   /\ wf_from (e_new ev) (length g) = true
-  /\ (if snap_child then e_rewritten ev = [] else forall x, In x (e_rewritten ev) -> allowed x = true)
+  /\ (if snap_child then rew_eff ev = [] else forall x, In x (rew_eff ev) -> allowed x = true)
   /\ (forall x, In x hidden ->
         (snap_child = false /\ allowed x = true)
         \/ (exists w, wc = Some w /\ x = w /\ wc_abandoned r (e_ws ev) c w = true))
@@ -251,7 +251,7 @@ Proof.
   - now apply negb_true_iff in H1.
   - exact H2.
   - destruct (match e_cmd ev with CSnapshot => _ | _ => _ end).
-    + destruct (e_rewritten ev); [reflexivity|discriminate].
+    + destruct (rew_eff ev); [reflexivity|discriminate].
     + now rewrite forallb_forall in H3.
   - intros x Hx. rewrite forallb_forall in H4. specialize (H4 x Hx).
     apply orb_true_iff in H4. destruct H4 as [H4|H4].
@@ -290,8 +290,8 @@ Proof.
      | CSnapshot, Some w => immb (r_graph r) (r_view r) (e_cfg ev) w
      | _, _ => false end) = false ->
     visb (r_graph r) (r_view r) x
-    && descb (r_graph r) (rewrite_roots (r_graph r) (wc_of (r_view r) (e_ws ev)) (e_cmd ev)) x
-    && (memn x (rewrite_roots (r_graph r) (wc_of (r_view r) (e_ws ev)) (e_cmd ev))
+    && descb (r_graph r) (rewrite_roots (r_graph r) (r_view r) (wc_of (r_view r) (e_ws ev)) (e_cmd ev)) x
+    && (memn x (rewrite_roots (r_graph r) (r_view r) (wc_of (r_view r) (e_ws ev)) (e_cmd ev))
         || negb (immb (r_graph r) (r_view r) (e_cfg ev) x)) = true ->
     exists w, wc_of (r_view r) (e_ws ev) = Some w
               /\ immb (r_graph r) (r_view r) (e_cfg ev) w = true
@@ -387,10 +387,10 @@ Qed.
     accepted command has only mutable targets. *)
 Definition Guarded (r : repo) (ev : event) : Prop :=
   (e_status ev = 0%N ->
-     forall t, In t (check_targets (r_graph r) (e_cmd ev)) ->
+     forall t, In t (check_targets (r_graph r) (r_view r) (e_cmd ev)) ->
                immb (r_graph r) (r_view r) (eff_cfg ev) t = false)
   /\ (e_status ev = 1%N ->
-        exists t, In t (check_targets (r_graph r) (e_cmd ev))
+        exists t, In t (check_targets (r_graph r) (r_view r) (e_cmd ev))
                   /\ immb (r_graph r) (r_view r) (eff_cfg ev) t = true)
   /\ (e_status ev <> 0%N ->
         e_nops ev = 0 /\ e_view ev = r_view r /\ e_new ev = [] /\ e_rewritten ev = []).
@@ -421,7 +421,7 @@ Definition SnapshotOnImmutable (r : repo) (ev : event) : Prop :=
   e_status ev = 0%N -> e_cmd ev = CSnapshot ->
   forall w, wc_of (r_view r) (e_ws ev) = Some w ->
     immb (r_graph r) (r_view r) (eff_cfg ev) w = true ->
-    e_rewritten ev = []
+    rew_eff ev = []
     /\ (forall x, In x (vis_list (r_graph r) (r_view r)) ->
                   visb (r_graph r ++ e_new ev) (e_view ev) x = true)
     /\ (forall w', 0 < e_nops ev -> wc_of (e_view ev) (e_ws ev) = Some w' ->
@@ -477,7 +477,7 @@ Qed.
     reports an error leaves the operation log and the view alone. *)
 Definition EventOk (strict : bool) (g : graph) (v : view) (ev : event) : Prop :=
   (e_override ev = false -> forall x, In x (e_imm_pre ev) ->
-     (In x (e_rewritten ev) \/ ~ In x (e_vis_post ev)) ->
+     (In x (rew_eff ev) \/ ~ In x (e_vis_post ev)) ->
      strict = false /\ ExemptObs g v ev x)
   /\ (e_status ev <> 0%N -> e_nops ev = 0 /\ v = e_view ev).
 
@@ -506,7 +506,7 @@ Proof.
     apply forallb_forall. intros x _. destruct (viol ev x) eqn:Ev; [|reflexivity]. cbn [negb orb].
     unfold viol in Ev. apply andb_true_iff in Ev. destruct Ev as [Hm Hv]. apply memn_spec in Hm.
     apply orb_true_iff in Hv.
-    assert (Hv' : In x (e_rewritten ev) \/ ~ In x (e_vis_post ev)).
+    assert (Hv' : In x (rew_eff ev) \/ ~ In x (e_vis_post ev)).
     { destruct Hv as [Hv|Hv]; [left; now apply memn_spec|right].
       apply negb_true_iff in Hv. now apply memn_false. }
     destruct (H1 x Hm Hv') as [-> He]. cbn [negb andb]. now apply exempt_spec.
@@ -562,7 +562,7 @@ Proof.
     + exfalso. destruct (accept_failed r ev r' Hacc Hst) as [Hu _].
       apply unchanged_parts in Hu. destruct Hu as [_ [_ [_ [Hr Hpost]]]].
       rewrite seteqn_spec in Hpost.
-      destruct Hv as [Hv|Hv]; [rewrite Hr in Hv; contradiction|].
+      destruct Hv as [Hv|Hv]; [unfold rew_eff in Hv; rewrite Hr in Hv; contradiction|].
       apply Hv. now apply Hpost.
   - intros Hst. destruct (accept_failed r ev r' Hacc Hst) as [Hu _].
     apply unchanged_parts in Hu. tauto.
